@@ -95,7 +95,10 @@ CONSTANT Mode           \* "eval" (C11) | "wire" (C14: IPLD nodes offered as pol
 
 \* ---- wire mode: well-formed and malformed IPLD nodes offered as policies ----
 WireStmts == Core \cup Nested \cup {Like(t_a, <<97, 42>>), Like(t_a, <<97, 42, 42>>), Like(t_a, <<92, 42, 42, 98>>), Like(t_a, <<42, 42, 42>>), Quant("all", t_l, Cmp(">", t_id, Int_(0))),
-                                    Conn("and", <<>>), Conn("or", <<>>), Cmp("==", t_id, Map(<<Entry(<<97>>, List(<<Int_(1), Null>>))>>))}
+                                    Conn("and", <<>>), Conn("or", <<>>), Cmp("==", t_id, Map(<<Entry(<<97>>, List(<<Int_(1), Null>>))>>)),
+                                    \* literals of the kinds that have a spelling of their own in DAG-JSON: byte strings, links, floats
+                                    Cmp("==", t_a, Bytes(<<0, 1, 255>>)), Cmp("==", t_a, lC1), Cmp("==", t_id, List(<<Bytes(<<>>), lC1v, Float2(3)>>)),
+                                    Cmp("==", t_id, Map(<<Entry(<<98>>, Bytes(<<97>>))>>)), Cmp(">", t_a, Float2(3))}
 Variants(n) ==      \* single mutations of a statement node (a list)
   LET e == Pv(n) IN
   {n, List(SubSeq(e, 1, Len(e) - 1)), List(Append(e, Int_(1))),
